@@ -391,6 +391,12 @@ func NewWorld(spec Spec) *World {
 			pod.Namespace = "kube-system"
 		}
 		pod.Spec.PriorityClassName = className(spec.TClass[t.ID])
+		if spec.TClass[t.ID] != 0 && t.ID%2 == 0 {
+			// a critical-class pod whose numeric priority is not resolved in the pod spec: TaskInfo.Priority then comes
+			// from the volcano.sh/task-priority annotation (conformance must go by the class NAME)
+			pod.Spec.Priority = nil
+			pod.Annotations["volcano.sh/task-priority"] = fmt.Sprint(t.Prio)
+		}
 		if !t.Preemptable {
 			// without the annotation a pod counts as preemptable (GetPodPreemptable)
 			pod.Annotations["volcano.sh/preemptable"] = "false"
